@@ -394,7 +394,12 @@ fn site_key(site: &str, key: &str) -> String {
 }
 
 /// `pick(step_index, parked thread ids)` → thread id to run (must be one of the parked ones).
-fn run_real(progs: &[Vec<Op>], wal: Option<SyncMode>, mut pick: impl FnMut(usize, &[usize]) -> Option<usize>) -> RunOut {
+///
+/// `respect_lock` (variant `fixed`: the log mutex is held from the log step to the end of the
+/// in-memory apply): a thread parked at the entry of a durable write of a non-cache key is not
+/// offered to `pick` while another thread is between its log step and the end of its operation
+/// (it would block on the mutex, which the scheduler can only detect by a timeout).
+fn run_real(progs: &[Vec<Op>], wal: Option<SyncMode>, respect_lock: bool, mut pick: impl FnMut(usize, &[usize]) -> Option<usize>) -> RunOut {
     let dir = tempfile::tempdir().expect("tempdir");
     let wal_path = dir.path().join("store.wal");
     let cfg = wal.map(|m| WalConfig { sync_mode: m, ..WalConfig::default() });
@@ -420,20 +425,41 @@ fn run_real(progs: &[Vec<Op>], wal: Option<SyncMode>, mut pick: impl FnMut(usize
         .collect();
     let mut eff = 0usize;
     let mut deviated = false;
+    let lock_on = respect_lock && wal.is_some();
+    let mut in_cs = vec![false; progs.len()];
     let trace = run_threads(tasks, |_n, parked| {
         if let Some(p) = parked.iter().position(|x| x.1 == "thread.start") {
             return p;
         }
-        let ids: Vec<usize> = parked.iter().map(|x| x.0).collect();
-        let want = pick(eff, &ids);
-        eff += 1;
-        match want.and_then(|w| ids.iter().position(|x| *x == w)) {
-            Some(p) => p,
-            None => {
-                deviated = true;
-                0
+        let takes_lock = |x: &(usize, &'static str, String)| {
+            (x.1 == "store.put_durable" || x.1 == "store.delete_durable") && !x.2.starts_with("_cache:")
+        };
+        for x in parked.iter() {
+            if x.1.starts_with("store.") {
+                in_cs[x.0] = false; // its previous operation has returned
             }
         }
+        for t in 0..in_cs.len() {
+            if !parked.iter().any(|x| x.0 == t) {
+                in_cs[t] = false; // finished
+            }
+        }
+        let held = lock_on && in_cs.iter().any(|b| *b);
+        let cand: Vec<usize> = (0..parked.len()).filter(|i| !(held && takes_lock(&parked[*i]))).collect();
+        let ids: Vec<usize> = cand.iter().map(|i| parked[*i].0).collect();
+        let want = pick(eff, &ids);
+        eff += 1;
+        let p = match want.and_then(|w| ids.iter().position(|x| *x == w)) {
+            Some(p) => cand[p],
+            None => {
+                deviated = true;
+                cand[0]
+            }
+        };
+        if lock_on && takes_lock(&parked[p]) {
+            in_cs[parked[p].0] = true;
+        }
+        p
     });
     let stalled = trace.iter().any(|s| !s.blocked.is_empty());
     let steps: Vec<(usize, String, String)> = trace
@@ -700,6 +726,7 @@ struct Ctx<'a> {
     viol_count: BTreeMap<String, u32>,
     budget_hits: u64,
     stalls: u64,
+    fixed: bool,
 }
 
 impl Ctx<'_> {
@@ -717,7 +744,7 @@ impl Ctx<'_> {
         let mut out = None;
         for _attempt in 0..3 {
             let mut r2 = rng.clone();
-            let o = run_real(progs, wal, |i, ids| match sched {
+            let o = run_real(progs, wal, self.fixed, |i, ids| match sched {
                 Some(s) => s.get(i).copied(),
                 None => Some(ids[r2.below(ids.len() as u64) as usize]),
             });
@@ -755,6 +782,12 @@ impl Ctx<'_> {
             if r.ret > r.inv + 0 && o.hist.iter().any(|q| q.t != r.t && q.inv <= r.ret && r.inv <= q.ret) {
                 self.rep.hit("overlapping_multi_step_op");
             }
+        }
+        if o.deviated && self.fixed && wal.is_some() && sched.is_some() {
+            self.rep.hit("scripted_schedule_not_executable_under_log_mutex");
+            self.rep.observe(json!({"line": format!("run 1 {} {}", show_progs(progs), show_sched(sched.unwrap())),
+                "note": "variant fixed: the scripted schedule asks a thread to log while another holds the log mutex; it is not executable"}));
+            return None;
         }
         if o.deviated {
             self.rep.disagree(&format!("{stream}.schedule"), input(), "scripted thread was not parked", "schedule is executable");
@@ -907,6 +940,8 @@ fn main() {
     );
     let mut model = Model::spawn(&args.driver);
     let root = Rng::new(args.seed);
+    // `--variant fixed`: /repo has proposed/C11-durable-apply-under-log-mutex.diff applied
+    let fixed = args.extra.windows(2).any(|w| w[0] == "--variant" && w[1] == "fixed");
 
     if let Some(path) = &args.replay {
         // replay file: {"failing_input": {"line": "run <wal> <progs> <sched>"}}
@@ -916,7 +951,7 @@ fn main() {
         if f.len() == 4 {
             if let Some(progs) = parse_progs(f[2]) {
                 let sched = parse_sched(f[3]);
-                let mut ctx = Ctx { rep: &mut rep, model: &mut model, viol_count: BTreeMap::new(), budget_hits: 0, stalls: 0 };
+                let mut ctx = Ctx { rep: &mut rep, model: &mut model, viol_count: BTreeMap::new(), budget_hits: 0, stalls: 0, fixed };
                 let mut r = root.fork("replay");
                 let wal = if f[1] == "1" { Some(SyncMode::Immediate) } else { None };
                 if let Some(o) = ctx.case("replay", &progs, wal, Some(&sched), &mut r, true) {
@@ -929,7 +964,7 @@ fn main() {
     }
 
     let scale: u64 = if args.thorough { 12 } else { 1 };
-    let mut ctx = Ctx { rep: &mut rep, model: &mut model, viol_count: BTreeMap::new(), budget_hits: 0, stalls: 0 };
+    let mut ctx = Ctx { rep: &mut rep, model: &mut model, viol_count: BTreeMap::new(), budget_hits: 0, stalls: 0, fixed };
 
     // ---- (ii) the Lean witness interleavings, replayed on the real store
     for (name, class) in [
@@ -957,6 +992,7 @@ fn main() {
                     ctx.rep.observe(json!({"witness": name, "real_history": o.hist_s, "image": o.image, "recovered": o.rimage}));
                 }
             }
+            None if ctx.fixed && name == "durable_order" => ctx.rep.hit("witness_not_executable_on_real_store:durable_order"),
             None => ctx.rep.disagree("witness.stalled", json!({"witness": name}), "scheduler stalled three times", ""),
         }
     }
